@@ -160,9 +160,13 @@ def runCx (c : Case) : Res :=
         -- the documented perturbation moves stored points by ~1e-8: compare with the INPUT positions of kept vertices
         let keptIn : List DPt := ins2.filterMap (fun (i, p) => if K.verts.any (·.id == i) then some p else none)
         let unexplained := missing.filter (fun (_, p) => !((present ++ keptIn).any (fun u => Q.le (d2 p u) tol2)))
+        -- several missing inputs that are duplicates of EACH OTHER need one skip credit together
+        -- (dedup removes all but one, that one may then be skipped as degenerate)
+        let reps := unexplained.foldl (fun (acc : List DPt) (x : Nat × DPt) =>
+          if acc.any (fun u => Q.le (d2 x.2 u) tol2) then acc else x.2 :: acc) []
         match ins.toNat?, (rest.getD 0 "").toNat?, (rest.getD 1 "").toNat? with
         | some _, some b, some d =>
-          if unexplained.length > b + d then
+          if reps.length > b + d then
             bad := s!"{unexplained.length} input vertices (e.g. id {(unexplained.map (·.1)).take 3}) are neither present, nor duplicates of a present vertex, nor covered by the skipped counters (duplicate={b}, degenerate={d})" :: bad
         | _, _, _ => pure ()
       | _ => pure ()
